@@ -893,6 +893,47 @@ func extractLocks(repo string, o *out) {
 		o.lines = append(o.lines, fmt.Sprintf("def refreshTestAndSetAtomic : Bool := %v",
 			testAndSetOneRegion(funcDeclRecv(bf, "refresh"), "ref.mu", "ref", "refreshing", false)))
 	}
+	// C01 / C07 (F22): the Done callback built by Pick does not read the channel's SubConn itself (it would do so
+	// before the balancer lock is taken, and a refresh swaps the SubConn under that lock): it hands the subConnRef to
+	// bindSubConnRef, which reads it after gb.mu.Lock()
+	{
+		pf := parse(filepath.Join(repo, "grpcgcp/gcp_picker.go"))
+		ok := false
+		if pick := funcDeclRecv(pf, "Pick"); pick != nil {
+			readsInCallback, bindsRef := 0, 0
+			ast.Inspect(pick.Body, func(n ast.Node) bool {
+				fl, isLit := n.(*ast.FuncLit)
+				if !isLit {
+					return true
+				}
+				ast.Inspect(fl.Body, func(m ast.Node) bool {
+					if call, isCall := m.(*ast.CallExpr); isCall {
+						if se, isSel := call.Fun.(*ast.SelectorExpr); isSel {
+							switch se.Sel.Name {
+							case "getSubConn":
+								readsInCallback++
+							case "bindSubConnRef":
+								bindsRef++
+							case "bindSubConn":
+								readsInCallback++ // binding an already evaluated SubConn
+							}
+						}
+					}
+					return true
+				})
+				return false
+			})
+			bf := parse(filepath.Join(repo, "grpcgcp/gcp_balancer.go"))
+			lockFirst := false
+			if fd := funcDeclRecv(bf, "bindSubConnRef"); fd != nil && len(fd.Body.List) > 0 {
+				if es, isExpr := fd.Body.List[0].(*ast.ExprStmt); isExpr {
+					lockFirst = exprString(es.X) == "gb.mu.Lock()"
+				}
+			}
+			ok = readsInCallback == 0 && bindsRef >= 1 && lockFirst
+		}
+		o.lines = append(o.lines, fmt.Sprintf("def bindReadsSubConnUnderLock : Bool := %v", ok))
+	}
 	// round-robin cursor (C09): rrRefId is advanced only by `atomic.AddUint32(&….rrRefId, 1)`
 	{
 		af := parse(filepath.Join(repo, "grpcgcp/gcp_balancer.go"))
